@@ -725,3 +725,111 @@ Proof.
     + exists p', ty. split; [reflexivity|lia].
     + exists p', ty. repeat split; try assumption; lia.
 Qed.
+
+(* ---------- the integer readers ---------- *)
+Definition with_seek_p {A} (fuel : nat) (tag : N) (req : bool) (bs : list N)
+           (body : N -> list N -> option (A * list N)) : rres A :=
+  match seek_p fuel tag req bs with
+  | Found ty r => match body ty r with Some (a, r') => ROk a r' | None => RErr end
+  | NotFound r => RAbsent r
+  | SeekErr => RErr
+  | SeekFuel => RFuel
+  end.
+Lemma with_seek_p_clean {A} f tag req bs (body : N -> list N -> option (A * list N)) :
+  seek_p f tag req bs <> SeekFuel -> with_seek f tag req bs body = with_seek_p f tag req bs body.
+Proof. intros H. unfold with_seek, with_seek_p. rewrite seek_p_clean by exact H. reflexivity. Qed.
+
+(* what a reader of a value of type V returns for an outcome of the model: the value read (the target keeps its old
+   value [data] when the field is absent), the error flag, and what is left *)
+Definition read_sim {V} (c : ctl unit (go_reader * V * bool)) (ref : list N) (data : V) (x : rres V) : Prop :=
+  match x with
+  | ROk v rest => exists p', c = Return (mk ref p' 0, v, false) /\ go_drop ref p' = rest /\ 0 <= p' <= go_len ref
+  | RAbsent rest => exists p', c = Return (mk ref p' 0, data, false) /\ go_drop ref p' = rest /\ 0 <= p' <= go_len ref + 4294967296
+  | RErr => exists p' v, c = Return (mk ref p' 0, v, true)
+  | RFuel => True
+  end.
+
+(* a big-endian read followed by the sign extension of its width *)
+Lemma be_case (n : nat) (w : Z) ref q d : 0 <= q -> (1 <= n)%nat -> w = 8 * Z.of_nat n -> bytes_ok ref ->
+  match bread n (go_drop ref q) with
+  | Some (v, r') => go_rd_be n (mk ref q d) = (mk ref (q + Z.of_nat n) d, Z.of_N v, false) /\
+                    wrapS w (Z.of_N v) = sext w v /\ go_drop ref (q + Z.of_nat n) = r' /\ q + Z.of_nat n <= go_len ref
+  | None => exists p' v, go_rd_be n (mk ref q d) = (mk ref p' d, v, true)
+  end.
+Proof.
+  intros Hq Hn Hw Hb. pose proof (rd_be_equiv n ref q d Hq Hn) as RB. pose proof (bread_lt n (go_drop ref q)) as BL.
+  destruct (bread n (go_drop ref q)) as [[v r']|].
+  - destruct RB as (E & E2 & L2). repeat split; try assumption.
+    apply wrapS_sext; [lia|]. subst w. apply (BL v r'); [apply bytes_ok_drop; assumption|reflexivity].
+  - destruct RB as (p' & v & E & _). exists p', v. exact E.
+Qed.
+
+(* the cases of the type switch of ReadIntNN, after the field was found at position q with [rest] left *)
+Local Ltac byte_case ref q rest Er Hb :=
+  unfold go_rd_u8; destruct rest as [|b r'];
+  [ rewrite (readbyte_nil _ _ _ Er); cbn [bindc Bool.eqb negb read_sim]; eexists; eexists; reflexivity
+  | rewrite (readbyte_cons _ _ _ _ _ Er); cbn [bindc Bool.eqb negb read_sim];
+    let E1 := fresh "E1" in let L1 := fresh "L1" in
+    destruct (go_drop_cons ref q b r' ltac:(lia) Er) as [E1 L1];
+    assert (b < 256)%N by (pose proof (bytes_ok_drop ref q Hb) as Fb; rewrite Er in Fb; inversion Fb; assumption);
+    rewrite wrapS_sext by lia; exists (q + 1); repeat split; try assumption; lia ].
+Local Ltac be_case_tac n w ref q rest Er Hb :=
+  let BC := fresh "BC" in
+  pose proof (be_case n w ref q 0 ltac:(lia) ltac:(lia) eq_refl Hb) as BC; rewrite Er in BC;
+  change go_rd_u16 with (go_rd_be 2); change go_rd_u32 with (go_rd_be 4); change go_rd_u64 with (go_rd_be 8);
+  destruct (bread n rest) as [[v r']|];
+  [ let W := fresh "W" in let E2 := fresh "E2" in let L2 := fresh "L2" in
+    destruct BC as (-> & W & E2 & L2); cbn [bindc Bool.eqb negb read_sim]; rewrite W;
+    exists (q + Z.of_nat n); repeat split; try assumption; lia
+  | let p' := fresh "p'" in let v := fresh "v" in
+    destruct BC as (p' & v & ->); cbn [bindc Bool.eqb negb read_sim]; eexists; eexists; reflexivity ].
+Local Ltac int_switch ref q rest Er Hb Hty :=
+  unfold read_int_body;
+  match goal with |- context [Z.of_N ?ty] =>
+    destruct (ty16 ty Hty) as [T|[T|[T|[T|[T|[T|[T|[T|[T|[T|[T|[T|[T|[T|[T|T]]]]]]]]]]]]]]]; subst ty end;
+  codes; zcodes; cbn [Z.leb Z.compare andb read_sim];
+  first [ solve [cbn [bindc Bool.eqb negb]; first [exists q; repeat split; try assumption; lia | eexists; eexists; reflexivity]]
+        | solve [byte_case ref q rest Er Hb]
+        | solve [be_case_tac 2%nat 16 ref q rest Er Hb]
+        | solve [be_case_tac 4%nat 32 ref q rest Er Hb]
+        | solve [be_case_tac 8%nat 64 ref q rest Er Hb] ].
+Local Ltac int_reader f F tag req ref p data HF Hok H :=
+  let SK := fresh "SK" in
+  pose proof (tr_SkipToNoCheck_equiv f F tag req ref p HF Hok H) as SK; unfold with_seek_p;
+  destruct (seek_p f tag req (go_drop ref p)) as [ty rest|rest| |]; cbn [seek_sim] in SK; try congruence;
+  [ let q := fresh "q" in let Er := fresh "Er" in let Hq := fresh "Hq" in let Hty := fresh "Hty" in
+    destruct SK as (q & -> & Er & Hq & Hty); cbn [go_call bindc Bool.eqb negb];
+    match goal with Hb : bytes_ok ref |- _ => int_switch ref q rest Er Hb Hty end
+  | let q := fresh "q" in let ty := fresh "ty" in let Er := fresh "Er" in let Hq := fresh "Hq" in
+    destruct SK as (q & ty & -> & Er & Hq); cbn [go_call bindc Bool.eqb negb read_sim]; exists q; repeat split; try assumption; lia
+  | let q := fresh "q" in let ty := fresh "ty" in let Hq := fresh "Hq" in
+    destruct SK as (q & ty & -> & Hq); cbn [go_call bindc Bool.eqb negb read_sim]; eexists; eexists; reflexivity ].
+
+Theorem tr_ReadInt8_equiv : forall f F (tag : N) req ref p data, (f + 3 <= F)%nat -> ok (mk ref p 0) ->
+  seek_p f tag req (go_drop ref p) <> SeekFuel ->
+  read_sim (tr_ReadInt8 F data (Z.of_N tag) req (mk ref p 0)) ref data (with_seek_p f tag req (go_drop ref p) (read_int_body 8)).
+Proof.
+  intros f F tag req ref p data HF Hok H. pose proof Hok as (Hp & Hl & Hb). cbn [rd_pos rd_ref] in *.
+  unfold tr_ReadInt8. int_reader f F tag req ref p data HF Hok H.
+Qed.
+Theorem tr_ReadInt16_equiv : forall f F (tag : N) req ref p data, (f + 3 <= F)%nat -> ok (mk ref p 0) ->
+  seek_p f tag req (go_drop ref p) <> SeekFuel ->
+  read_sim (tr_ReadInt16 F data (Z.of_N tag) req (mk ref p 0)) ref data (with_seek_p f tag req (go_drop ref p) (read_int_body 16)).
+Proof.
+  intros f F tag req ref p data HF Hok H. pose proof Hok as (Hp & Hl & Hb). cbn [rd_pos rd_ref] in *.
+  unfold tr_ReadInt16. int_reader f F tag req ref p data HF Hok H.
+Qed.
+Theorem tr_ReadInt32_equiv : forall f F (tag : N) req ref p data, (f + 3 <= F)%nat -> ok (mk ref p 0) ->
+  seek_p f tag req (go_drop ref p) <> SeekFuel ->
+  read_sim (tr_ReadInt32 (S F) data (Z.of_N tag) req (mk ref p 0)) ref data (with_seek_p f tag req (go_drop ref p) (read_int_body 32)).
+Proof.
+  intros f F tag req ref p data HF Hok H. pose proof Hok as (Hp & Hl & Hb). cbn [rd_pos rd_ref] in *.
+  cbn [tr_ReadInt32]. int_reader f F tag req ref p data HF Hok H.
+Qed.
+Theorem tr_ReadInt64_equiv : forall f F (tag : N) req ref p data, (f + 3 <= F)%nat -> ok (mk ref p 0) ->
+  seek_p f tag req (go_drop ref p) <> SeekFuel ->
+  read_sim (tr_ReadInt64 F data (Z.of_N tag) req (mk ref p 0)) ref data (with_seek_p f tag req (go_drop ref p) (read_int_body 64)).
+Proof.
+  intros f F tag req ref p data HF Hok H. pose proof Hok as (Hp & Hl & Hb). cbn [rd_pos rd_ref] in *.
+  unfold tr_ReadInt64. int_reader f F tag req ref p data HF Hok H.
+Qed.
